@@ -94,6 +94,9 @@ WITNESSES = [
      "input": "println(string_repr(1 < 1))\nprintln(string_repr(1 <= 1))\nprintln(string_repr(2 > 2))\nprintln(string_repr(2 >= 2))\nprintln(string_repr(-1 < 0))",
      "expect": {"stdout": "False\nTrue\nFalse\nTrue\nTrue"}},
 ]
+sys.path.insert(0, os.path.dirname(os.path.abspath(__file__)))
+import discarded  # noqa: E402
+WITNESSES += discarded.witnesses(r"arith\.", ["C04"])
 
 GLUE = """
 #[verifier::external_body] pub struct Type { _o: u8 }
@@ -247,6 +250,42 @@ def build(tier):
         name="int_dispatch",
         prefix="match opx {\n", suffix=" => { assert(is_int_op(op.kind)); }\n _ => {} }",
         contract=Contract(props=both))
+    # ---- the operator is evaluated (and can raise) whether or not its value is used ------------------------------------
+    import hashlib
+    from gen import Tag
+    src_ev = u.source(EV)
+    bad, seen_fns = [], []
+    for fn_name in ("eval_int_binop", "eval_float_binop"):
+        try:
+            it = src_ev.find_fn(fn_name)
+        except Exception:
+            continue
+        seen_fns.append(fn_name)
+        body = re.sub(r"//[^\n]*", "", it.text)
+        sig_end = body.index("{")
+        m_ = re.search(r"\bmatch\s+op\s*\.\s*kind\b", body)
+        if not m_:
+            bad.append("%s: no `match op.kind`" % fn_name)
+            continue
+        head = body[sig_end:m_.start()]
+        if re.search(r"\breturn\b(?!\s+Err\b)", head):
+            bad.append("%s: a return that is not an error before the operator is evaluated" % fn_name)
+        if re.search(r"\bexpr_value_is_used\b", head):
+            bad.append("%s: expr_value_is_used is consulted before the operator is evaluated" % fn_name)
+    if not seen_fns:
+        bad.append("eval_int_binop not found")
+    fname = "operator_evaluated_before_the_value_is_dropped"
+    u.fn_props[fname] = {"C04"}
+    u.skeletons[fname] = hashlib.sha256(("|".join(seen_fns) + "#" + ";".join(bad)).encode()).hexdigest()[:12]
+    u.items.append({"name": "eval_int_binop / eval_float_binop: between popping the operands and `match op.kind` there is no way out except an error, and whether the value is used is not looked at",
+                    "generated_as": fname, "kind": "slice", "where": EV, "sha256_16": "-", "skeleton": u.skeletons[fname]})
+    oid = "arith.%s.post[an_unused_result_still_raises]" % fname
+    u.clauses.append((oid, {"C04"}, "n == 0"))
+    tg_ = Tag("repo", fn=fname, repo_file=EV, repo_line=src_ev.find_fn("eval_int_binop").line0 if "eval_int_binop" in seen_fns else 1, props={"C04"})
+    u.emit("pub fn %s() -> (n: u64)" % fname, tg_)
+    u.raw("    ensures", fn=fname, props={"C04"})
+    u.emit("        n == 0,", Tag("contract", fn=fname, clause=oid, props={"C04"}))
+    u.emit("{ %d }  // %s" % (len(bad), "; ".join(bad) or "checked: " + ", ".join(seen_fns)), tg_)
     u.add_canary_proof()
     u.raw(common.FOOTER)
     return u
